@@ -60,7 +60,7 @@ theorem count_accountL (L : Lexer) (T : Tables) (strict : Bool) (x : String) (pn
         by_cases hs : (strict && !(collectNodeT L T c').isEmpty) = true
         · simp only [hs, if_true, idsL_cons, removedIds_append, removedIds_cons, removedIds_nil, List.append_nil, List.count_append]
           omega
-        · simp only [hs, Bool.false_eq_true, if_false, idsL_cons, removedIds_append, removedIds_nil, List.append_nil, List.count_append]
+        · simp only [hs, Bool.false_eq_true, if_false, idsL_cons, removedIds_append, List.append_nil, List.count_append]
           omega
     · have ha' : childAllowed T pn c.name = false := by simpa using ha
       simp only [ha', Bool.not_false, if_true, idsL_cons, removedIds_cons, List.count_append]
